@@ -1468,11 +1468,15 @@ fn exercise_font(cx: &mut Ctx, data: &[u8], rng: &mut Rng, thorough: bool) {
         }
         if let Some(Ok(mut inst)) = cx.api("HintingInstance::new", || HintingInstance::new(&og, size, LocationRef::new(&cs), HintingOptions { engine, target })) {
             let _ = (inst.is_enabled(), inst.size(), inst.target(), inst.location().coords().len());
-            if i == 1 {
+            // API history: 0..3 reconfigurations of the same instance (new size / location / target, mostly the
+            // same engine) before it is used for drawing
+            for _ in 0..rng.below(4) {
                 let cs2 = rng.pick(&coord_sets).clone();
-                let sz2 = *rng.pick(&sizes);
+                let sz2 = if rng.chance(1, 2) { Size::new(*rng.pick(&[9.0f32, 12.0, 16.0, 33.0])) } else { *rng.pick(&sizes) };
                 let tg = *rng.pick(&targets);
-                cx.api("HintingInstance::reconfigure", || inst.reconfigure(&og, sz2, LocationRef::new(&cs2), HintingOptions { engine: Engine::AutoFallback, target: tg }).is_ok());
+                let eng = if rng.chance(2, 3) { engines[i % 3].clone() } else { rng.pick(&engines).clone() };
+                cx.api("HintingInstance::reconfigure", || inst.reconfigure(&og, sz2, LocationRef::new(&cs2), HintingOptions { engine: eng, target: tg }).is_ok());
+                cx.count("fuzz.reconfigures");
             }
             instances.push(inst);
             cx.count("fuzz.hinting_instances");
@@ -1506,6 +1510,20 @@ fn exercise_font(cx: &mut Ctx, data: &[u8], rng: &mut Rng, thorough: bool) {
             let mem: Option<&mut [u8]> = blen.map(|l| &mut big[boff..boff + l]);
             let style = if rng.chance(1, 4) { skrifa::outline::pen::PathStyle::HarfBuzz } else { skrifa::outline::pen::PathStyle::FreeType };
             let trace = std::env::var("C02_TRACE").is_ok();
+            if hinted && rng.chance(1, 8) {
+                // reconfigure one of the live instances between draws
+                let ii = rng.below(instances.len() as u64) as usize;
+                let cs2 = rng.pick(&coord_sets).clone();
+                let sz2 = Size::new(*rng.pick(&[7.0f32, 12.0, 20.0, 64.0]));
+                let tg = *rng.pick(&targets);
+                let eng = rng.pick(&engines).clone();
+                if trace {
+                    wline(&format!("T reconfigure inst#{} size={:?} target={:?}", ii, sz2, tg));
+                }
+                let inst = &mut instances[ii];
+                cx.api("HintingInstance::reconfigure", || inst.reconfigure(&og, sz2, LocationRef::new(&cs2), HintingOptions { engine: eng, target: tg }).is_ok());
+                cx.count("fuzz.reconfigures");
+            }
             let res = if hinted {
                 let ii = rng.below(instances.len() as u64) as usize;
                 let inst = &instances[ii];
@@ -1831,7 +1849,15 @@ fn exercise_mem(cx: &mut Ctx, data: &[u8], gid: u32, thorough: bool) {
     let naxes = font.axes().len();
     let coords: Vec<F2Dot14> = (0..naxes).map(|_| F2Dot14::from_f32(0.5)).collect();
     let cap = if thorough { 12000 } else { 2600 };
-    let inst = HintingInstance::new(&og, Size::new(16.0), LocationRef::new(&coords), HintingOptions { engine: Engine::Interpreter, target: Default::default() }).ok();
+    // an instance with history: created at one size, reconfigured twice (size, then size + location)
+    let inst = cx
+        .api("HintingInstance::new", || {
+            let mut inst = HintingInstance::new(&og, Size::new(11.0), LocationRef::default(), HintingOptions { engine: Engine::Interpreter, target: Default::default() }).ok()?;
+            inst.reconfigure(&og, Size::new(13.0), LocationRef::default(), HintingOptions { engine: Engine::Interpreter, target: Default::default() }).ok()?;
+            inst.reconfigure(&og, Size::new(16.0), LocationRef::new(&coords), HintingOptions { engine: Engine::Interpreter, target: Default::default() }).ok()?;
+            Some(inst)
+        })
+        .flatten();
     for mode in 0..4u8 {
         // 0 unhinted FreeType style, 1 unhinted HarfBuzz style, 2 hinted non-pedantic, 3 hinted pedantic
         let hinting = if mode >= 2 { skrifa::outline::Hinting::Embedded } else { skrifa::outline::Hinting::None };
@@ -2389,7 +2415,7 @@ fn cff_charstring(stems: &[(i32, i32)], variant: u8) -> Vec<u8> {
     cs.push(14); // endchar
     cs
 }
-fn cff_table_with(glyph1: &[u8]) -> Vec<u8> {
+fn cff_table_with(glyph1: &[u8], private_dict: &[u8]) -> Vec<u8> {
     let notdef: &[u8] = &[14];
     let mut cff = vec![1u8, 0, 4, 1];
     cff.extend_from_slice(&[0, 1, 1, 1, 2, b'A']); // Name INDEX
@@ -2409,8 +2435,7 @@ fn cff_table_with(glyph1: &[u8]) -> Vec<u8> {
     cff.extend_from_slice(notdef);
     cff.extend_from_slice(glyph1);
     let priv_off = cff.len();
-    let private_dict = [50u8 + 139, 10]; // StdHW 50
-    cff.extend_from_slice(&private_dict);
+    cff.extend_from_slice(private_dict);
     let mut top = vec![];
     let dict_int = |out: &mut Vec<u8>, v: i32| {
         out.push(29);
@@ -2424,7 +2449,7 @@ fn cff_table_with(glyph1: &[u8]) -> Vec<u8> {
     cff[top_pos..top_pos + TOP].copy_from_slice(&top);
     cff
 }
-fn cff_font(charstring: &[u8]) -> Vec<u8> {
+fn cff_font(charstring: &[u8], private_dict: &[u8]) -> Vec<u8> {
     let mut hmtx = vec![];
     for _ in 0..2 {
         hmtx.extend_from_slice(&be16(500));
@@ -2435,7 +2460,7 @@ fn cff_font(charstring: &[u8]) -> Vec<u8> {
         (b"hhea", hhea_table(2)),
         (b"maxp", vec![0, 0, 0x50, 0, 0, 2]),
         (b"hmtx", hmtx),
-        (b"CFF ", cff_table_with(charstring)),
+        (b"CFF ", cff_table_with(charstring, private_dict)),
     ]);
     f[0..4].copy_from_slice(b"OTTO");
     f
@@ -2456,7 +2481,72 @@ fn cff_cases() -> Vec<(String, Vec<u8>)> {
                 if ghost == -21 && pairs % 2 == 0 {
                     stems.push((10 * pairs + 30, 10 * pairs + 30 - 20));
                 }
-                v.push((format!("synthetic-cff-stems-v{}-p{}-g{}", variant, pairs, -ghost), cff_font(&cff_charstring(&stems, variant))));
+                v.push((format!("synthetic-cff-stems-v{}-p{}-g{}", variant, pairs, -ghost), cff_font(&cff_charstring(&stems, variant), &[50u8 + 139, 10])));
+            }
+        }
+    }
+    v
+}
+/// Private DICT with the given numbers of zone pairs per blue array (counts may exceed the spec maxima 7/5/7/5)
+fn cff_private_dict(nbv: usize, nob: usize, nfb: usize, nfo: usize, lang: u8, height: i32, snaps: usize) -> Vec<u8> {
+    let mut d = vec![];
+    let mut blues = |d: &mut Vec<u8>, n: usize, start: i32, op: u8| {
+        if n == 0 {
+            return;
+        }
+        let mut prev = 0;
+        for i in 0..n as i32 {
+            let bottom = start + 40 * i;
+            let top = bottom + height;
+            cs_num(d, bottom - prev);
+            cs_num(d, top - bottom);
+            prev = top;
+        }
+        d.push(op);
+    };
+    blues(&mut d, nbv, 0, 6); // BlueValues
+    blues(&mut d, nob, -900, 7); // OtherBlues
+    blues(&mut d, nfb, 5, 8); // FamilyBlues
+    blues(&mut d, nfo, -895, 9); // FamilyOtherBlues
+    cs_num(&mut d, 7);
+    d.extend_from_slice(&[12, 10]); // BlueShift
+    cs_num(&mut d, 1);
+    d.extend_from_slice(&[12, 11]); // BlueFuzz
+    cs_num(&mut d, 50);
+    d.push(10); // StdHW
+    cs_num(&mut d, 60);
+    d.push(11); // StdVW
+    if snaps > 0 {
+        for _ in 0..snaps {
+            cs_num(&mut d, 5);
+        }
+        d.extend_from_slice(&[12, 12]); // StemSnapH
+    }
+    cs_num(&mut d, lang as i32);
+    d.extend_from_slice(&[12, 17]); // LanguageGroup
+    d
+}
+/// structure-aware Private DICT sweep: zone counts up to and beyond the spec maxima
+fn cff_private_cases() -> Vec<(String, Vec<u8>)> {
+    let mut v = vec![];
+    let stems: Vec<(i32, i32)> = (1..=6).map(|k| (40 * k, 40 * k + 10)).collect();
+    let cs = cff_charstring(&stems, 0);
+    for nbv in [0usize, 1, 5, 6, 7, 8, 12] {
+        for nob in [0usize, 1, 4, 5, 6, 7, 8, 12] {
+            for lang in [0u8, 1] {
+                for fam in [false, true] {
+                    for height in [10i32, 0] {
+                        if height == 0 && (fam || lang == 1) {
+                            continue;
+                        }
+                        let (nfb, nfo) = if fam { (nbv, nob) } else { (0, 0) };
+                        let snaps = if fam { 13 } else { 2 };
+                        v.push((
+                            format!("synthetic-cff-private-bv{}-ob{}-fam{}-lang{}-h{}", nbv, nob, fam as u8, lang, height),
+                            cff_font(&cs, &cff_private_dict(nbv, nob, nfb, nfo, lang, height, snaps)),
+                        ));
+                    }
+                }
             }
         }
     }
@@ -2488,9 +2578,19 @@ fn exercise_cff(cx: &mut Ctx, data: &[u8]) {
                     let Some(Ok(inst)) = cx.api("HintingInstance::new", || HintingInstance::new(&og, Size::new(ppem), LocationRef::default(), HintingOptions { engine: engine.clone(), target })) else {
                         continue;
                     };
-                    for ped in [false, true] {
-                        let r = cx.api("draw.hinted", || glyph.draw(DrawSettings::hinted(&inst, ped), &mut NullPen).is_ok());
-                        cx.count(if r == Some(true) { "cff.hinted_ok" } else { "cff.hinted_err" });
+                    let mut inst = inst;
+                    for pass in 0..2 {
+                        if pass == 1 {
+                            // same instance after a reconfiguration to another size and back
+                            cx.api("HintingInstance::reconfigure", || {
+                                inst.reconfigure(&og, Size::new(ppem + 3.0), LocationRef::default(), HintingOptions { engine: engine.clone(), target }).is_ok()
+                                    && inst.reconfigure(&og, Size::new(ppem), LocationRef::default(), HintingOptions { engine: engine.clone(), target }).is_ok()
+                            });
+                        }
+                        for ped in [false, true] {
+                            let r = cx.api("draw.hinted", || glyph.draw(DrawSettings::hinted(&inst, ped), &mut NullPen).is_ok());
+                            cx.count(if r == Some(true) { "cff.hinted_ok" } else { "cff.hinted_err" });
+                        }
                     }
                 }
             }
@@ -2694,6 +2794,210 @@ fn exercise_brotli(cx: &mut Ctx, c: &BrCase) {
     }
 }
 
+// ---- glyph keyed patches against fonts whose offset arrays (gvar / loca) are non-monotone in structured ways ----
+struct GkCase {
+    long_loca: bool,
+    long_gvar: bool,
+    loca: Vec<u32>,
+    gvar: Option<Vec<u32>>,
+    gids: Vec<u16>,
+    tables: Vec<[u8; 4]>,
+    what: String,
+}
+const GK_GLYPHS: usize = 15;
+const GK_DATA: u32 = 120;
+/// n+1 offsets: sorted base, then 0..3 structured violations
+fn hostile_offsets(rng: &mut Rng, hostile: bool) -> (String, Vec<u32>) {
+    let n = GK_GLYPHS;
+    let mut off: Vec<u32> = (0..=n).map(|_| (rng.below(GK_DATA as u64 / 2 + 1) * 2) as u32).collect();
+    off.sort();
+    if rng.chance(1, 3) {
+        off[0] = 0;
+    }
+    let mut desc = String::from("sorted");
+    if !hostile {
+        return (desc, off);
+    }
+    for _ in 0..1 + rng.below(3) {
+        let i = 1 + rng.below(n as u64) as usize; // 1..=n
+        match rng.below(9) {
+            0 | 1 => {
+                // dip that stays at or above the first offset
+                let lo = off[0];
+                let hi = off[i - 1];
+                if hi > lo {
+                    off[i] = lo + (rng.below(((hi - lo) / 2) as u64) * 2) as u32;
+                    desc.push_str(&format!("+dip-above-first@{}", i));
+                }
+            }
+            2 => {
+                if off[0] >= 2 {
+                    off[i] = (rng.below((off[0] / 2) as u64) * 2) as u32;
+                    desc.push_str(&format!("+dip-below-first@{}", i));
+                }
+            }
+            3 => {
+                let j = (i + 1 + rng.below(4) as usize).min(n);
+                let v = off[i];
+                for k in i..=j {
+                    off[k] = v;
+                }
+                desc.push_str(&format!("+equal-run@{}..{}", i, j));
+            }
+            4 => {
+                off[n] = if off[0] >= 2 && rng.chance(1, 2) { off[0] - 2 } else { 0 };
+                desc.push_str("+last-below-first");
+            }
+            5 => {
+                off[i] = GK_DATA + (rng.below(4) * 2) as u32 + if rng.chance(1, 4) { 60000 } else { 0 };
+                desc.push_str(&format!("+spike@{}", i));
+            }
+            6 => {
+                off.swap(i - 1, i);
+                desc.push_str(&format!("+swap@{}", i));
+            }
+            7 => {
+                let v = off[i];
+                for o in off.iter_mut() {
+                    *o = v;
+                }
+                desc.push_str("+all-equal");
+            }
+            _ => {
+                off.reverse();
+                desc.push_str("+reversed");
+            }
+        }
+    }
+    (desc, off)
+}
+fn gk_gvar_table(offsets: &[u32], long: bool) -> Vec<u8> {
+    let n = offsets.len() - 1;
+    let mut t = vec![0u8, 1, 0, 0, 0, 1, 0, 0];
+    let entry = if long { 4 } else { 2 };
+    let data_off = 20 + entry * (n + 1);
+    t.extend_from_slice(&(data_off as u32).to_be_bytes()); // shared tuples offset (none)
+    t.extend_from_slice(&(n as u16).to_be_bytes());
+    t.extend_from_slice(&(long as u16).to_be_bytes());
+    t.extend_from_slice(&(data_off as u32).to_be_bytes());
+    for o in offsets {
+        if long {
+            t.extend_from_slice(&o.to_be_bytes());
+        } else {
+            t.extend_from_slice(&((o / 2) as u16).to_be_bytes());
+        }
+    }
+    t.extend((0..GK_DATA).map(|i| (i % 200) as u8 + 1));
+    t
+}
+fn gk_font(c: &GkCase) -> Vec<u8> {
+    use font_test_data::ift as t;
+    let mut ift = t::table_keyed_format2();
+    ift.write_at("encoding", 3u8);
+    ift.write_at("compat_id[0]", 6u32);
+    ift.write_at("compat_id[1]", 7u32);
+    ift.write_at("compat_id[2]", 8u32);
+    ift.write_at("compat_id[3]", 9u32);
+    let mut head = head_table();
+    head[50..52].copy_from_slice(&be16(c.long_loca as u16));
+    let mut loca = vec![];
+    for o in &c.loca {
+        if c.long_loca {
+            loca.extend_from_slice(&o.to_be_bytes());
+        } else {
+            loca.extend_from_slice(&((o / 2) as u16).to_be_bytes());
+        }
+    }
+    let glyf: Vec<u8> = (0..GK_DATA).map(|i| (i % 100) as u8 + 100).collect();
+    let mut tabs: Vec<(&[u8; 4], Vec<u8>)> = vec![(b"head", head), (b"maxp", maxp_table(GK_GLYPHS as u16, 16, 0)), (b"loca", loca), (b"glyf", glyf), (b"IFT ", ift.to_vec())];
+    if let Some(g) = &c.gvar {
+        tabs.push((b"gvar", gk_gvar_table(g, c.long_gvar)));
+    }
+    build_sfnt(&tabs)
+}
+fn gk_payload(gids: &[u16], tables: &[[u8; 4]]) -> Vec<u8> {
+    let n = gids.len();
+    let mut p = vec![];
+    p.extend_from_slice(&(n as u32).to_be_bytes());
+    p.push(tables.len() as u8);
+    for g in gids {
+        p.extend_from_slice(&g.to_be_bytes());
+    }
+    for t in tables {
+        p.extend_from_slice(t);
+    }
+    let header = p.len() + 4 * (n * tables.len() + 1);
+    let mut off = header as u32;
+    let mut data = vec![];
+    for ti in 0..tables.len() {
+        for (k, _) in gids.iter().enumerate() {
+            p.extend_from_slice(&off.to_be_bytes());
+            let l = 2 * ((k + ti) % 4) as u32; // even lengths (short loca), some empty
+            data.extend((0..l).map(|x| b'a' + (x as u8 + k as u8) % 26));
+            off += l;
+        }
+    }
+    p.extend_from_slice(&off.to_be_bytes());
+    p.extend_from_slice(&data);
+    p
+}
+fn gk_cases(seed: u64, thorough: bool) -> Vec<GkCase> {
+    let mut rng = Rng::new(seed ^ 0x474b_4f46);
+    let mut v = vec![];
+    let n = if thorough { 4000 } else { 700 };
+    for i in 0..n {
+        let which = rng.below(4); // 0 both sorted, 1 hostile gvar, 2 hostile loca, 3 both hostile
+        let (d1, loca) = hostile_offsets(&mut rng, which == 2 || which == 3);
+        let with_gvar = i % 5 != 0;
+        let (d2, gv) = hostile_offsets(&mut rng, which == 1 || which == 3);
+        let mut gids: Vec<u16> = if rng.chance(1, 4) { vec![2, 7, 8] } else { (0..1 + rng.below(4)).map(|_| { let extra = if rng.chance(1, 10) { 2 } else { 0 }; rng.below(GK_GLYPHS as u64 + extra) as u16 }).collect() };
+        gids.sort();
+        gids.dedup();
+        let tables: Vec<[u8; 4]> = match rng.below(4) {
+            0 => vec![*b"glyf"],
+            1 => vec![*b"gvar"],
+            _ => vec![*b"glyf", *b"gvar"],
+        };
+        v.push(GkCase { long_loca: rng.chance(1, 2), long_gvar: rng.chance(1, 2), loca, gvar: with_gvar.then_some(gv), gids, tables, what: format!("loca:{} gvar:{}", d1, d2) });
+    }
+    v
+}
+fn exercise_gk(cx: &mut Ctx, c: &GkCase) {
+    use font_test_data::ift as t;
+    let font = gk_font(c);
+    let Ok(fr) = skrifa::FontRef::new(&font) else { return };
+    let subset = SubsetDefinition::codepoints([5u32].into_iter().collect());
+    cx.group("PatchGroup::apply_next_patches(glyph-keyed)");
+    let Some(Ok(g)) = cx.api("PatchGroup::select_next_patches", || PatchGroup::select_next_patches(fr.clone(), &subset)) else {
+        cx.count("gk.select_err");
+        return;
+    };
+    let uris: Vec<String> = g.uris().map(|u| u.to_string()).collect();
+    let payload = gk_payload(&c.gids, &c.tables);
+    let mut h = t::glyph_keyed_patch_header();
+    h.write_at("max_uncompressed_length", payload.len() as u32);
+    let mut patch = h.to_vec();
+    patch.extend_from_slice(&stored_brotli(16, &payload, 1 << 16));
+    let mut data: HashMap<String, UriStatus> = uris.iter().map(|u| (u.clone(), UriStatus::Pending(patch.clone()))).collect();
+    match cx.api("PatchGroup::apply_next_patches", || g.apply_next_patches(&mut data)) {
+        Some(Ok(newfont)) => {
+            cx.count("gk.apply_ok");
+            // the patched font must parse and its offset arrays be usable
+            cx.api("patched-font.outline_glyphs", || {
+                use skrifa::MetadataProvider;
+                if let Ok(f) = skrifa::FontRef::new(&newfont) {
+                    let og = f.outline_glyphs();
+                    for gid in 0..GK_GLYPHS as u32 + 1 {
+                        let _ = og.get(skrifa::GlyphId::new(gid));
+                    }
+                }
+            });
+        }
+        Some(Err(_)) => cx.count("gk.apply_err"),
+        None => {}
+    }
+}
+
 // ---- task list (identical in every process) ----
 #[derive(Clone)]
 enum Task {
@@ -2706,6 +3010,7 @@ enum Task {
     Ift2(usize),
     Cff(usize),
     Brotli(usize),
+    Gk(usize),
 }
 
 struct World {
@@ -2719,6 +3024,7 @@ struct World {
     f2: Vec<F2>,
     cffs: Vec<(String, Vec<u8>)>,
     brs: Vec<BrCase>,
+    gks: Vec<GkCase>,
     tasks: Vec<Task>,
 }
 
@@ -2772,7 +3078,8 @@ fn build_world(seed: u64, thorough: bool) -> World {
     for i in 0..f2.len() {
         tasks.push(Task::Ift2(i));
     }
-    let cffs = cff_cases();
+    let mut cffs = cff_cases();
+    cffs.extend(cff_private_cases());
     for i in 0..cffs.len() {
         tasks.push(Task::Cff(i));
     }
@@ -2780,13 +3087,17 @@ fn build_world(seed: u64, thorough: bool) -> World {
     for i in 0..brs.len() {
         tasks.push(Task::Brotli(i));
     }
+    let gks = gk_cases(seed, thorough);
+    for i in 0..gks.len() {
+        tasks.push(Task::Gk(i));
+    }
     let nim = if thorough { 60000 } else { 8000 };
     for m in 0..nim {
         for fix in 0..ift.len() {
             tasks.push(Task::Ift { fix, m });
         }
     }
-    World { seed, thorough, runs, comps, fonts, ift, f1, f2, cffs, brs, tasks }
+    World { seed, thorough, runs, comps, fonts, ift, f1, f2, cffs, brs, gks, tasks }
 }
 
 fn run_task(w: &World, idx: usize, totals: &mut std::collections::BTreeMap<String, u64>, evals: &mut u64) {
@@ -2901,6 +3212,17 @@ fn run_task(w: &World, idx: usize, totals: &mut std::collections::BTreeMap<Strin
             wline(&format!("B {} {}", idx, key));
             let mut cx = Ctx { task: idx, key, counters: Default::default(), evals: 0, failures: 0, sites: vec![] };
             exercise_cff(&mut cx, bytes);
+            *evals += cx.evals;
+            for (k, v) in cx.counters {
+                *totals.entry(k).or_insert(0) += v;
+            }
+        }
+        Task::Gk(i) => {
+            let c = &w.gks[*i];
+            let key = format!("ift-glyph-keyed-offsets:#{} {} gids={:?} tables={}", i, c.what, c.gids, c.tables.len());
+            wline(&format!("B {} {}", idx, key));
+            let mut cx = Ctx { task: idx, key, counters: Default::default(), evals: 0, failures: 0, sites: vec![] };
+            exercise_gk(&mut cx, c);
             *evals += cx.evals;
             for (k, v) in cx.counters {
                 *totals.entry(k).or_insert(0) += v;
